@@ -37,6 +37,10 @@ def run(ctx, rep):
                     rep.ob('R04.a', S + '::persist_messages', '%s after both writes' % place_fields(lhs)[-1][1], ok, '%s:%s' % (pb.file, s.get('ln')),
                            None if ok else '`%s` advances although the log or index write may have failed' % place_fields(lhs)[-1][1])
 
+    # ------------------------------------------------------------ R04.b write-all discipline
+    rep.rule('R04.b', 'write-all discipline: a short-write primitive (write / write_vectored) is used only inside a retry loop that consumes its count; batch writers reach a flush before reporting success', floor=4, analysis='A14')
+    write_all_rules(ctx, rep, 'R04.b')
+
     # ------------------------------------------------------------ R04.c bounded readers
     rep.rule('R04.c', 'readers are bounded by validated lengths: header and payload must fit into the file, a short read ends the scan with Ok(None)', floor=6, analysis='A3+A10')
     check_comparisons(ctx, rep, 'R04.c', {k: v for k, v in rf.CMP_LOG.items()})
@@ -68,3 +72,53 @@ def run(ctx, rep):
     # ------------------------------------------------------------ R04.f no panic on the start-up path
     rep.rule('R04.f', 'no unguarded may-panic site on the start-up path for crash-producible inputs', floor=40, analysis='A7')
     check_panics(ctx, rep, 'R04.f', sp.STARTUP_FNS, sp.PANICS)
+
+
+LW = 'server::streaming::segments::logs::log_writer::SegmentLogWriter'
+PT = 'server::streaming::segments::logs::persister_task::PersisterTask'
+WAV = 'server::streaming::segments::logs::write_all_vectored'
+
+
+def write_all_rules(ctx, rep, rid):
+    import json
+    n = 0
+    for df in sorted(ctx.facts.body_defs()):
+        if not in_crate(df):
+            continue
+        raw = ctx.facts.raw_body(df)
+        if not any(bl.get('term', {}).get('fn', '') in ('tokio::io::AsyncWriteExt::write', 'tokio::io::AsyncWriteExt::write_vectored', 'std::io::Write::write', 'std::io::Write::write_vectored', 'tokio::io::AsyncWriteExt::write_buf')
+                   for bl in raw['blocks']):
+            continue
+        b = ctx.body(df)
+        for c in b.calls:
+            if c.fn not in ('tokio::io::AsyncWriteExt::write', 'tokio::io::AsyncWriteExt::write_vectored', 'std::io::Write::write', 'std::io::Write::write_vectored', 'tokio::io::AsyncWriteExt::write_buf') or not is_user_call(c):
+                continue
+            n += 1
+            loops = [bl for h, bl in natural_loops(b) if c.bb in bl]
+            # the written count must be consumed: it flows into advance_slices / advance / a comparison inside the loop
+            consumed = False
+            for x in b.calls:
+                if x.name.split('::')[-1] in ('advance_slices', 'advance') and any(y[0] == 'call' and y[3] == c.bb for a in x.args for y in walk(b.expr_operand(a))):
+                    consumed = True
+            ok = bool(loops) and consumed
+            rep.ob(rid, ctx.user_fn_of(df), short(c.fn) + ' count consumed in a loop', ok, c.where(),
+                   'the returned count advances the buffers inside a retry loop' if ok else
+                   '`%s` may write only part of the data (tokio::fs::File copies at most 2 MiB per call) and its count is %s: the batch is silently truncated' % (short(c.fn), 'ignored' if not consumed else 'not used in a loop'))
+    rep.ob(rid, '<server>', 'short-write primitives enumerated', True, None, '%d call sites' % n)
+    # flush chain: write_all_vectored Ok => flushed ; write_batch Ok => write_all_vectored Ok ; persister task likewise
+    if ctx.has(WAV):
+        wb = ctx.fn_body(WAV)
+        fl = [c for c in wb.calls if c.name.split('::')[-1] in ('flush', 'sync_all', 'sync_data')]
+        exits = ok_exit_blocks(wb)
+        ok = bool(fl) and not ((exits - {c.bb for c in fl}) & wb.reachable(0, avoid_blocks={c.bb for c in fl}))
+        rep.ob(rid, WAV, 'flush before Ok', ok, fl[0].where() if fl else None, 'every successful return has awaited flush()' if ok else 'write_all_vectored can return Ok without awaiting flush(): tokio completes the write in the background')
+    else:
+        rep.anchor_lost(rid, WAV)
+    for fn, callee in ((LW + '::write_batch', WAV), (PT + '::write_with_retries', WAV)):
+        b = ctx.fn_body(fn)
+        cs = [c for c in b.calls if c.name == callee or c.name.split('::')[-1].startswith('write_all')]
+        if not cs:
+            rep.ob(rid, fn, 'writes through a write-all primitive', False, None, '%s no longer writes through the write-all helper' % short(fn))
+            continue
+        bad = strict_ok_exit_blocks(b) & b.reachable(0, avoid_edges=set(ok_edges(b, cs[0])))
+        rep.ob(rid, fn, 'Ok only after the whole batch was written', not bad, cs[0].where(), None if not bad else 'Ok is reachable without a successful write of the whole batch')
